@@ -113,10 +113,16 @@ func init() {
 		done(B.And(B.Eq(s, B.BVC(0, 64)), B.Eq(n, B.BVC(0, 64))))
 	})
 	reg(tm+"Sub", func(ex *Exec, g *G, fn *ssa.Function, args []Value, done func(Value)) {
-		// exact for instants within +-2^62 ns of the epoch (no saturation there)
+		// as time.Time.Sub: the difference saturates at the largest / smallest Duration
 		_, na := ex.timeParts(args[0])
 		_, nb := ex.timeParts(args[1])
-		done(ex.B.Sub(na, nb))
+		B := ex.B
+		d := B.Sub(na, nb)
+		// overflow of a - b: operands of different sign and the result's sign differs from a's
+		aNeg, bNeg, dNeg := B.Slt(na, B.BVC(0, 64)), B.Slt(nb, B.BVC(0, 64)), B.Slt(d, B.BVC(0, 64))
+		ovf := B.And(B.Not(B.Eq(aNeg, bNeg)), B.Not(B.Eq(aNeg, dNeg)))
+		sat := B.Ite(aNeg, B.BVC(uint64(1)<<63, 64), B.BVC(uint64(1)<<63-1, 64))
+		done(B.Ite(ovf, sat, d))
 	})
 	reg(tm+"Add", func(ex *Exec, g *G, fn *ssa.Function, args []Value, done func(Value)) {
 		_, na := ex.timeParts(args[0])
